@@ -236,6 +236,43 @@ def run_scenario(name, log, outdir):
             f.write("syscall trace of recovery (file, call):\n" + "\n".join("%s %s" % e for e in ev if e[0] != "pwrite64" or True)[-4000:])
             f.write("\nverdict: %s\n" % ("VIOLATED: no fsync(ht) between the last pwrite(ht) and ftruncate(wal)" if violated else "holds / not observed"))
         return violated, tr
+    if name == "c04_seglog_dir_fsync":
+        st = os.path.join(outdir, name + ".strace")
+        subprocess.run(["strace", "-f", "-y", "-e", "trace=openat,pwrite64,write,fsync,fdatasync", "-o", st, b, "c04_two_commits", d],
+                       stdout=subprocess.PIPE, stderr=subprocess.STDOUT, text=True)
+        if not os.path.exists(st):
+            return None, tr
+        ev = []
+        dbdir = os.path.abspath(d)
+        for ln in open(st):
+            m = re.search(r"openat\([^,]*, \"([^\"]*rollback[^\"]*\.log)\", ([A-Z_|]+)", ln)
+            if m and "O_CREAT" in m.group(2):
+                ev.append(("create", os.path.basename(m.group(1))))
+                continue
+            m = re.search(r"(pwrite64|write|fsync|fdatasync)\(\d+<([^>]*)>", ln)
+            if m:
+                path = m.group(2)
+                c = "sync" if m.group(1) in ("fsync", "fdatasync") else "write"
+                if os.path.abspath(path) == dbdir:
+                    ev.append((c, "<dir>"))
+                elif os.path.basename(path) == "meta" or "rollback" in os.path.basename(path):
+                    ev.append((c, os.path.basename(path)))
+        problems = []
+        creates = [i for i, e in enumerate(ev) if e[0] == "create"]
+        for ci in creates:
+            nxt_meta = next((j for j in range(ci, len(ev)) if ev[j] == ("write", "meta")), len(ev))
+            seg = ev[ci:nxt_meta]
+            if ("sync", "<dir>") not in seg:
+                problems.append("segment %s created but the directory is not fsynced before the next meta write" % ev[ci][1])
+            if not any(e[0] == "sync" and "rollback" in e[1] for e in seg):
+                problems.append("segment %s: record not fsynced before the next meta write" % ev[ci][1])
+        with open(tr, "w") as f:
+            f.write("scenario %s: two commits with rollback enabled under strace\n" % name)
+            f.write("\n".join("%s %s" % e for e in ev)[-4000:])
+            f.write("\nproblems: %s\n" % (problems or "none"))
+        if not creates:
+            return None, tr
+        return bool(problems), tr
     if name == "c04_commit_order":
         st = os.path.join(outdir, name + ".strace")
         subprocess.run(["strace", "-f", "-y", "-e", "trace=pwrite64,write,fsync,fdatasync,ftruncate", "-o", st, b, "c04_two_commits", d],
